@@ -25,6 +25,7 @@ import (
 	"context"
 	"errors"
 	"fmt"
+	"net/http/httptest"
 	"os"
 	"path/filepath"
 	"sort"
@@ -33,10 +34,13 @@ import (
 	"sync"
 	"time"
 
+	"github.com/go-git/go-billy/v6/osfs"
 	git "github.com/go-git/go-git/v6"
+	"github.com/go-git/go-git/v6/backend"
 	"github.com/go-git/go-git/v6/config"
 	"github.com/go-git/go-git/v6/plumbing"
 	"github.com/go-git/go-git/v6/plumbing/client"
+	"github.com/go-git/go-git/v6/plumbing/transport"
 
 	"verifmc/fw"
 )
@@ -214,11 +218,25 @@ func i36MakeServer(c *fw.Ctx, b *i36Base, mask int, withX bool) *i36Srv {
 	c.Must(os.RemoveAll(filepath.Join(dir, "refs")), "reset refs")
 	os.Remove(filepath.Join(dir, "packed-refs"))
 	refs := i36ServerRefs(b, mask, withX)
-	for name, id := range refs {
-		p := filepath.Join(dir, name)
-		c.Must(os.MkdirAll(filepath.Dir(p), 0o755), "mkdir ref")
-		c.Must(os.WriteFile(p, []byte(id+"\n"), 0o644), "write ref")
+	// Both reference stores are in use on every server: main and the annotated
+	// tag ta are loose files, every other reference lives in packed-refs (no
+	// header line: git then peels tags itself), where main additionally has a
+	// stale value (commit 0) that its loose file hides.
+	var packed strings.Builder
+	for _, name := range iSortedKeys(refs) {
+		id := refs[name]
+		if name == "refs/heads/main" || name == "refs/tags/ta" {
+			p := filepath.Join(dir, name)
+			c.Must(os.MkdirAll(filepath.Dir(p), 0o755), "mkdir ref")
+			c.Must(os.WriteFile(p, []byte(id+"\n"), 0o644), "write ref")
+			if name != "refs/heads/main" {
+				continue
+			}
+			id = b.ids[0]
+		}
+		fmt.Fprintf(&packed, "%s %s\n", id, name)
 	}
+	c.Must(os.WriteFile(filepath.Join(dir, "packed-refs"), []byte(packed.String()), 0o644), "write packed-refs")
 	os.MkdirAll(filepath.Join(dir, "refs", "heads"), 0o755)
 	os.MkdirAll(filepath.Join(dir, "refs", "tags"), 0o755)
 	c.Must(os.WriteFile(filepath.Join(dir, "HEAD"), []byte("ref: refs/heads/main\n"), 0o644), "write HEAD")
@@ -395,6 +413,15 @@ type i36Run struct {
 	cut           bool
 	oracleRefused int
 	wantsDiffer   int
+	httpURL       string // base URL of the in-process smart-HTTP server (go-git backend), serving absolute paths
+}
+
+// i36OverHTTP: the go-git->go-git pairing of this server runs over smart HTTP
+// (stateless RPC through backend.Backend) instead of the file transport: the
+// DAGs whose last commit is a second root (quick tier: the two-root DAG).
+func i36OverHTTP(b *i36Base) bool {
+	n := len(b.dag.Parents)
+	return n >= 2 && len(b.dag.Parents[n-1]) == 0
 }
 
 func (r *i36Run) fail(order int, key, what string, rep map[string]any) {
@@ -462,7 +489,7 @@ func i36GoOp(fn func(ctx context.Context) error) (err error, hung bool) {
 	}
 }
 
-func (r *i36Run) goFetch(dir, url string, proto int, spec string, tags plumbing.TagMode, depth int, prune bool, exec bool) (error, bool) {
+func (r *i36Run) goFetch(dir, url string, proto int, spec string, tags plumbing.TagMode, depth int, prune bool, exec bool, overHTTP bool) (error, bool) {
 	f, err := os.OpenFile(filepath.Join(dir, "config"), os.O_APPEND|os.O_WRONLY, 0o644)
 	if err != nil {
 		fw.Abort("open client config: %v", err)
@@ -478,6 +505,9 @@ func (r *i36Run) goFetch(dir, url string, proto int, spec string, tags plumbing.
 		o := &git.FetchOptions{RemoteName: "origin", RefSpecs: []config.RefSpec{config.RefSpec(spec)}, Depth: depth, Tags: tags, Prune: prune}
 		if exec {
 			o.ClientOptions = []client.Option{client.WithTransport("file", &iExecTransport{home: r.home})}
+		}
+		if overHTTP {
+			o.RemoteURL = r.httpURL + url
 		}
 		err = repo.FetchContext(ctx, o)
 		if errors.Is(err, git.NoErrAlreadyUpToDate) {
@@ -531,6 +561,12 @@ func (r *i36Run) makePrior(b *i36Base, newSrv *i36Srv, p i36Prior, spec string, 
 		}
 		args = append(args, "origin")
 		g.In(dir).MustRun(args...)
+		if p.Kind == "div" {
+			// the diverged prior keeps its references in packed-refs and its objects
+			// in one pack (the other priors: loose files, as git fetch leaves them)
+			g.In(dir).MustRun("pack-refs", "--all")
+			g.In(dir).MustRun("repack", "-a", "-d", "-q")
+		}
 	}
 	writeRemote(newSrv.dir)
 	st, err := iReadState(r.home, dir)
@@ -771,6 +807,10 @@ func runC36(c *fw.Ctx) {
 
 	r := &i36Run{c: c, home: filepath.Join(c.Scratch(), "home"), self: iSelf(), failed: map[string]int{}, failMsg: map[string]string{}, hung: map[string]int{}}
 	os.MkdirAll(r.home, 0o755)
+	hsrv := httptest.NewServer(backend.New(transport.NewFilesystemLoader(osfs.New("/"), false)))
+	defer hsrv.Close()
+	r.httpURL = hsrv.URL
+	c.Bound("gogit_to_gogit_transport", "file; smart HTTP (backend.Backend on a loopback listener) for the servers whose last commit is a second root")
 
 	// 1. bases
 	type bd struct {
@@ -1101,6 +1141,9 @@ func (r *i36Run) cloneUnit(ui int, b *i36Base, srv *i36Srv, depths []int, protos
 				case i36GG, i36GX:
 					err, h := i36GoOp(func(ctx context.Context) error {
 						o := &git.CloneOptions{URL: url, Depth: depth, NoCheckout: true}
+						if e.pairing == i36GG && i36OverHTTP(b) {
+							o.URL = r.httpURL + srv.dir
+						}
 						v.Opt(o)
 						if e.pairing == i36GX {
 							o.ClientOptions = []client.Option{client.WithTransport("file", &iExecTransport{home: r.home})}
